@@ -18,7 +18,7 @@ META = dict(
                 'combinations / self-assignment / value assignment / reset / end of life, postcondition = observation of the same program over '
                 'std::optional / std::variant (contents, live-object count, zero dead-object operations); and with utl::vector<size_t> as payload '
                 '(copy / assign / self-assign under pointer checks, end of life under the leak check). '
-                'Seven genuine deviations from std of static_vector / vector and ten of the non-trivial maybe / either specialisations '
+                'One genuine deviation from std of static_vector (resize growth after a shrink resurrects stale elements; repair prepared but deferred) and ten of the non-trivial maybe / either specialisations '
                 '(payload never destroyed; assignment into raw storage) are recorded as known findings and excluded by region.'),
     level_note=('Trusted: clang AST, cxx2c rendering (incl. new: anonymous unions, CRTP base-to-derived casts, scalar placement new, scope-exit '
                 'destructor calls, malloc/free/memcpy passed to CBMC\'s models), CBMC 6.11 dfcc. Vector sizes are bounded by the precondition '
@@ -27,8 +27,8 @@ META = dict(
                 'placement new of records with a user-provided constructor, mutable namespace-scope scalars of the instantiation TU; explicit '
                 'destructor calls x.~T() are ordinary member calls. The raw payload storage of an empty maybe is given the arbitrary content `junk` '
                 'by the wrapper (a parameter, so every content is covered), which also makes native replays deterministic; '
-                'the per-operation vector contracts assume the push_back argument does not alias the vector\'s own storage (the aliasing case '
-                'is a recorded finding). Induction over histories is the usual meta-argument from the per-operation contracts.'),
+                'the per-operation push_back contract assumes the argument does not alias the vector\'s own storage (is_fresh(t)); the aliasing '
+                'case v.push_back(v[0]) across a reallocation is covered by the scenario unit vec.push_alias. Induction over histories is the usual meta-argument from the per-operation contracts.'),
     trusted_base=[
         'clang 14 front end (AST of the instantiated templates)', 'engine/cxx2c.py (C++ AST -> C rendering)',
         'cbmc 6.11.0 / goto-instrument --dfcc (contract instrumentation, is_fresh / was_freed / frees semantics, SAT back end)',
@@ -40,7 +40,7 @@ META = dict(
         'instantiations: static_vector<size_t,8>, array<size_t,4>, vector<size_t>, maybe<size_t>, either<size_t,int>, maybe<trk_t>, maybe<vector<size_t>>, either<trk_t,int>, tuple/tuplev2<size_t,int,size_t>; -DNDEBUG, STL enabled',
         'trk_t (inst/c19.cpp) is alive while state == TRK_ALIVE; its counters trk_live / trk_bad are reset at the start of every scenario wrapper; expected counter values are those of the same wrapper over std::optional / std::variant',
         'utl::vector: sizes and capacities <= VEC_MAX = 2^16 elements (proofs also pass with 2^20 / 2^32; 2^16 keeps counterexample search on broken code fast) (so that sizeof(T)*n cannot wrap; plays the role of max_size()); malloc succeeds',
-        'utl::vector per-operation invariant uses buffer_size_ >= 1, i.e. excludes the state created by vector(size_type 0) (known finding: leaked block)',
+        'utl::vector per-operation invariant uses buffer_size_ >= 1, i.e. excludes the state created by vector(size_type 0) (zero-byte block; covered by the scenario units vec.sized / vec.zero_push under the leak check)',
         'ghost g (observed position) and vg (its pre-state value) are bound in preconditions; ghost cells are functional definitions',
         'spec predicate loop sv_dirty (known-finding region) is unwound 8 times (spec evaluation bound, not a code loop)',
     ],
@@ -70,6 +70,7 @@ VE = 'utl::vector == std::vector; copies independent, self-assignment harmless, 
 HEAP = dict(extra=['--memory-leak-check'], gi_extra=['--no-malloc-may-fail'], timeout=900)
 VO = 'utl::vector: every operation preserves the representation invariant and transforms the element sequence like std::vector'
 HEAPOP = dict(gi_extra=['--no-malloc-may-fail'], timeout=900)
+HEAPL = dict(gi_extra=['--no-malloc-may-fail'], timeout=2400)   # three vector constructions with the value-initialising resize loop: 5-14 min on a loaded machine
 UNITS = [
     U('sv.default', SV), U('sv.sized', SV), U('sv.variadic', SV), U('sv.copy', SV), U('sv.assign', SV), U('sv.self_assign', SV),
     U('sv.resize', SV), U('sv.resize_fill', SV, unwind=10), U('sv.push_back', SV), U('sv.write', SV), U('sv.write_at', SV),
@@ -101,7 +102,7 @@ UNITS = [
     U('mbt.default', MBT), U('mbt.nothing', MBT), U('mbt.value', MBT), U('mbt.copy', MBT), U('mbt.assign', MBT),
     U('mbt.self_assign', MBT), U('mbt.assign_value', MBT), U('mbt.assign_nothing', MBT), U('mbt.write', MBT), U('mbt.scope', MBT),
     # maybe<utl::vector<size_t>>: heap payload (pointer checks; leak check only for the end-of-life unit)
-    U('mbv.copy', MBV, **HEAPOP), U('mbv.assign', MBV, **HEAPOP), U('mbv.self_assign', MBV, **HEAPOP), U('mbv.scope', MBV, **HEAP),
+    U('mbv.copy', MBV, **HEAPL), U('mbv.assign', MBV, **HEAPL), U('mbv.self_assign', MBV, **HEAPL), U('mbv.scope', MBV, **HEAP),
     # either<T,int> for a non-trivial T (specialisation with user-provided copy constructor / empty destructor)
     U('e2.default', E2), U('e2.left', E2), U('e2.right', E2), U('e2.copy', E2), U('e2.assign', E2), U('e2.self_assign', E2),
     U('e2.assign_left', E2), U('e2.assign_right', E2), U('e2.scope', E2),
